@@ -5,7 +5,8 @@ Tie: (i) translate/donecb_skeleton.py regenerates Gen/DoneCbSkeleton.v from the
 bytecode of ThreadDoneCallback.{register,close,_monitor}; DoneCb/Model.v proves
 that its hand-written programs are exactly the shared accesses of that skeleton;
 (ii) an OPCODE SCHEDULER interleaves the REAL ThreadDoneCallback at bytecode
-granularity under given schedules and the per-step observations are compared
+granularity under given schedules (a thread parked before `with self._lock` while
+the lock is held is not schedulable) and the per-step observations are compared
 with the model's (vm_compute); (iii) the real TaskDoneCallback is driven with
 all completion orders of <= 5 tasks and compared with the sequential model.
 Oracle: the property text on the observed event log of the real classes.
@@ -34,13 +35,17 @@ TRUSTED_BASE = [
     'set iterator next, Thread.is_alive are single C calls); threading.Thread.join; asyncio done-callback dispatch',
 ]
 ASSUMPTIONS = [
-    'threads register themselves (register() called in the thread, as nextline/spawned/plugin/plugins/concurrency.py does) '
-    'once, and can end only after register() returned',
-    'close() is invoked after every register() call has returned (its docstring: "to be called after all threads are '
-    'registered") and not from a registered thread',
+    'structural, built into the model: a thread registers ITSELF (register() is called in the thread, as '
+    'nextline/spawned/plugin/plugins/concurrency.py does), once, and can end only after its register() returned',
+    'structural: close() is called at most once and not from a registered thread',
+    'contract of close() ("to be called after all threads are registered"): NOT built into the labels; the theorems '
+    'and the oracle speak about the threads whose register() had returned when close() was called '
+    '(registered_before_close); a thread that registers later may miss its callback',
     'harness threads hash to their index so that CPython iterates the set in ascending index order like the model '
     '(iteration order does not influence whether a callback is lost)',
     'the `done` callback is given; it may raise',
+    'task half: no task is registered again after it ended (twf); a re-registration of an ended task fires the '
+    'callback once more (modelled and checked by the correspondence, excluded from the theorem)',
 ]
 
 PARK_TIMEOUT = 5.0
@@ -569,8 +574,8 @@ WITNESS = {
     'iteration_locked': dict(raises=[], schedule=[S('M')] * 3 + [['arrive', 1], S(1), S(1), S('M'), S(1)]),
     'lost_update_locked': dict(raises=[], schedule=[['arrive', 1], S(1), S(1), S(1), S(1), ['die', 1]] + [S('M')] * 8
                                + [['arrive', 2], S(2), S(2), S('M'), S(2), S('M'), S(2)]),
-    'exit_race_locked': dict(raises=[], schedule=[S('M')] * 14 + [['arrive', 1], S(1), ['close'], S('C'), S('C'), S('C'),
-                                                                  S('M'), S(1), S('M')]),
+    'exit_race_locked': dict(raises=[], schedule=[S('M')] * 11 + [['arrive', 1], S(1), S('M'), S(1), S('M'), S(1), S(1), S(1),
+                                                                  S(1), ['close'], S('C'), S('C'), S('C')]),
 }
 
 
@@ -581,7 +586,8 @@ def exhaustive_schedules(k1, k2, d1s, kc, kf):
        (b) thread 1 registered first and ending after d1 monitor steps, thread 2: every placement among k2;
        (c) one thread + close(): every placement of arrive / LockAcquire / block and of the block
            close();LoadActive;Contains;StoreClosed among kc monitor steps;
-       (f) one thread, all five events separately (+ die) among kf monitor steps."""
+       (f) one thread, all five events separately (+ die) among kf monitor steps;
+       (e) see below."""
     BL = ('BLOCK',)
 
     def expand(m, t):
@@ -600,6 +606,12 @@ def exhaustive_schedules(k1, k2, d1s, kc, kf):
         yield 'close', [], m[:i] + [['close'], S('C'), S('C'), S('C')] + m[i + 1:]
     for m in merges([[S('M')] * kf, [['arrive', 1], S(1), S(1), S(1), S(1), ['die', 1]]]):
         yield 'one-fine', [], m
+    # (e) the exit check: the monitor first runs up to the end of its first rebuild (8 accesses on an empty
+    #     set), then every placement of thread 1 and of the close() block among the next 6 monitor accesses
+    for m in merges([[S('M')] * 6, [['arrive', 1], S(1), BL, blk]]):
+        m = expand(m, 1)
+        i = m.index(blk)
+        yield 'close-late', [], [S('M')] * 8 + m[:i] + [['close'], S('C'), S('C'), S('C')] + m[i + 1:]
 
 
 def random_schedule(rng, nthreads, length):
@@ -990,7 +1002,8 @@ def correspond(ctx) -> Corr:
         f'accesses + die separately among {kf}')
     for r in runs:
         if r['kind'].startswith('witness:') or r['kind'] == 'corpus':
-            corr.extra.setdefault('former_violation_schedules', {})[r['kind'] + ':' + str(len(r['labels']))] = \
+            d = corr.extra.setdefault('former_violation_schedules', {})
+            d[f"{r['kind']}#{len(d)}"] = \
                 [s for s, _ in oracle_thread(r)] or 'passes'
     # task half
     tcases = []
